@@ -32,9 +32,25 @@ func valueFieldByName(v reflect.Value, fields []string) (out reflect.Value, ok b
 		return out, false
 	}
 
-	out = v.FieldByName(fields[0])
+	// the field may be promoted by structures embedded through pointers,
+	// which v.FieldByName cannot go through (it panics) when they are nil
+	sf, found := v.Type().FieldByName(fields[0])
+	if !found {
+		return reflect.Value{}, false
+	}
+	out = v
+	for _, i := range sf.Index {
+		if out.Kind() == reflect.Ptr {
+			if out.IsNil() {
+				out = reflect.New(out.Type().Elem()).Elem()
+			} else {
+				out = out.Elem()
+			}
+		}
+		out = out.Field(i)
+	}
 
-	// unknown field or field we cannot get the value from (not exported)
+	// field we cannot get the value from (not exported)
 	if !out.IsValid() || !out.CanInterface() {
 		return reflect.Value{}, false
 	}
